@@ -429,10 +429,10 @@ func (x *Exec) assumeCompRange(comp string, v Term) {
 	}
 }
 
-func (x *Exec) havocModifies(env *Env, st *State, fc *FuncContract) error {
+func (x *Exec) havocModifies(env *Env, st *State, fc *FuncContract, extra ...string) error {
 	// "preserves": materialise the current value of those components so that a full havoc keeps them
 	keep := map[string]Term{}
-	for _, it := range fc.Preserves {
+	for _, it := range append(append([]string(nil), fc.Preserves...), extra...) {
 		ts, err := x.modTargets(env, it)
 		if err != nil {
 			return fmt.Errorf("preserves %s: %v", it, err)
@@ -483,7 +483,7 @@ func VerifyFunction(prog *Program, cs *Contracts, fn *ssa.Function, fc *FuncCont
 	u := NewUnit(short, fc.Mode, prog.Fset)
 	res = &FuncResult{Func: short, Key: name, Mode: fc.Mode, Unit: u, Contract: fc}
 	x := &Exec{u: u, prog: prog, cs: cs, topFC: fc, topName: short, closures: map[string]*Closure{}, labels: fc.Props,
-		calls: map[string]int{}, compInt: map[string]intInfo{}, loopEff: map[string]*loopEffects{}, callSeen: map[string]bool{}}
+		calls: map[string]int{}, compInt: map[string]intInfo{}, loopEff: map[string]*loopEffects{}, callSeen: map[string]bool{}, inlineLoopSeen: map[string]bool{}}
 	res.X = x
 	defer func() {
 		if r := recover(); r != nil {
@@ -678,6 +678,27 @@ func VerifyFunction(prog *Program, cs *Contracts, fn *ssa.Function, fc *FuncCont
 			}
 		}
 	}
+	for tag, cl := range fc.CallAssume {
+		if !x.callSeen[tag] {
+			for ci, c := range cl {
+				u.AddObligation(short, fmt.Sprintf("assert@%s.assume%d", tag, ci+1), fn.Pos(), x.lab(nil), c.Text+"   [the call "+tag+" no longer exists]", True, False)
+			}
+		}
+	}
+	for tag, its := range fc.CallPreserves {
+		if !x.callSeen[tag] {
+			u.AddObligation(short, fmt.Sprintf("assert@%s.preserves", tag), fn.Pos(), x.lab(nil), "call-site frame "+strings.Join(its, ", ")+"   [the call "+tag+" no longer exists]", True, False)
+		}
+	}
+	for name, m := range fc.InlineLoops {
+		for n, cl := range m {
+			if !x.inlineLoopSeen[fmt.Sprintf("%s.%d", name, n)] {
+				for ci, c := range cl {
+					u.AddObligation(short, fmt.Sprintf("inv-entry.%s.L%d.c%d", name, n, ci+1), fn.Pos(), x.lab(c.Labels), c.Text+fmt.Sprintf("   [loop %d of the inlined function %s no longer exists]", n, name), True, False)
+				}
+			}
+		}
+	}
 	return
 }
 
@@ -791,7 +812,7 @@ func VerifyLemma(prog *Program, cs *Contracts, lm *Lemma) (res *FuncResult) {
 		Loops: map[int][]*Clause{}, Waive: map[string]bool{}, CallInv: map[string][]*Clause{}, CallAssert: map[string][]*Clause{}, CallWitness: map[string][]LetDef{}}
 	res = &FuncResult{Func: name, Key: name, Mode: lm.Mode, Unit: u, Contract: fc}
 	x := &Exec{u: u, prog: prog, cs: cs, topFC: fc, topName: name, closures: map[string]*Closure{}, labels: lm.Clause.Labels,
-		calls: map[string]int{}, compInt: map[string]intInfo{}, loopEff: map[string]*loopEffects{}, callSeen: map[string]bool{}}
+		calls: map[string]int{}, compInt: map[string]intInfo{}, loopEff: map[string]*loopEffects{}, callSeen: map[string]bool{}, inlineLoopSeen: map[string]bool{}}
 	res.X = x
 	defer func() {
 		if r := recover(); r != nil {
